@@ -97,8 +97,8 @@ Qed.
 
 (* ------------------------------------------------------------------ send_reps *)
 
-Lemma send_reps_spec : forall pay rs i rs' calls ok,
-  send_reps pay i rs = (rs', calls, ok) ->
+Lemma send_reps_spec : forall pay d rs i rs' calls ok,
+  send_reps pay d i rs = (rs', calls, ok) ->
   length rs' = length rs /\
   (forall j rp', nth_error rs' j = Some rp' -> r_written rp' = true ->
       (exists rp, nth_error rs j = Some rp /\ r_written rp = true) \/
@@ -109,7 +109,7 @@ Lemma send_reps_spec : forall pay rs i rs' calls ok,
 Proof.
   induction rs as [|r rest IH]; simpl; intros i rs' calls ok H.
   - inversion H; subst. repeat split; intros; auto; destruct j; discriminate.
-  - destruct (send_reps pay (S i) rest) as [[rest' calls0] ok0] eqn:E.
+  - destruct (send_reps pay d (S i) rest) as [[rest' calls0] ok0] eqn:E.
     specialize (IH _ _ _ _ E). destruct IH as (IL & IW & IO & IC).
     destruct (r_written r) eqn:W.
     + inversion H; subst. repeat split.
@@ -125,8 +125,8 @@ Proof.
       * intros j rp Hn Hw. destruct j; simpl in *.
         -- inversion Hn; subst. congruence.
         -- destruct (IC _ _ Hn Hw) as (c & A & B). exists c. split; auto; try lia.
-    + destruct (next_outcome (r_script r)) as [o sc] eqn:N0.
-      inversion H; subst. repeat split.
+    + destruct (next_outcome (r_script r)) as [o0 sc] eqn:N0. set (o := eff d o0) in *.
+      inversion H; subst rs' calls ok. repeat split.
       * simpl. congruence.
       * intros j rp' Hn Hw. destruct j; simpl in *.
         -- inversion Hn; subst. simpl in Hw. right.
@@ -154,8 +154,8 @@ Proof.
   - apply In_nth_error in H0 as [j Hj]. eauto.
 Qed.
 
-Lemma shard_bulk_spec : forall pay sh sh' short calls ok,
-  shard_bulk pay sh = (sh', short, calls, ok) ->
+Lemma shard_bulk_spec : forall pay d sh sh' short calls ok,
+  shard_bulk pay d sh = (sh', short, calls, ok) ->
   length (s_reps sh') = length (s_reps sh) /\
   (forall j rp', nth_error (s_reps sh') j = Some rp' -> r_written rp' = true ->
       (exists rp, nth_error (s_reps sh) j = Some rp /\ r_written rp = true) \/
@@ -165,9 +165,9 @@ Lemma shard_bulk_spec : forall pay sh sh' short calls ok,
    forall j rp, nth_error (s_reps sh) j = Some rp -> r_written rp = false ->
       exists c, In c calls /\ c_rep c = j).
 Proof.
-  intros pay sh sh' short calls ok H. unfold shard_bulk in H.
+  intros pay d sh sh' short calls ok H. unfold shard_bulk in H.
   assert (G : forall fl0,
-     (let '(rs', calls, ok) := send_reps pay 0 (s_reps sh) in
+     (let '(rs', calls, ok) := send_reps pay d 0 (s_reps sh) in
       (mkShard (tl fl0) rs', false, calls, ok)) = (sh', short, calls, ok) ->
      length (s_reps sh') = length (s_reps sh) /\
      (forall j rp', nth_error (s_reps sh') j = Some rp' -> r_written rp' = true ->
@@ -177,9 +177,9 @@ Proof.
      (short = true \/
       forall j rp, nth_error (s_reps sh) j = Some rp -> r_written rp = false ->
         exists c, In c calls /\ c_rep c = j)).
-  { intros fl0 H0. destruct (send_reps pay 0 (s_reps sh)) as [[rs' calls0] ok0] eqn:E.
+  { intros fl0 H0. destruct (send_reps pay d 0 (s_reps sh)) as [[rs' calls0] ok0] eqn:E.
     inversion H0; subst. simpl.
-    destruct (send_reps_spec _ _ _ _ _ _ E) as (A & B & C & D).
+    destruct (send_reps_spec _ _ _ _ _ _ _ E) as (A & B & C & D).
     split; [auto|]. split; [exact B|]. split.
     - intros Hok. apply all_written_nth. simpl. intros. eapply C; eauto.
     - right. exact D. }
@@ -196,8 +196,8 @@ Qed.
 Definition FullT (ts : list shard) : Prop :=
   ts = [] \/ exists i sh, nth_error ts i = Some sh /\ all_written sh = true.
 
-Lemma send_order_spec : forall t pay order ts ts' vs ok prior nr,
-  send_order t pay order ts = (ts', vs, ok) ->
+Lemma send_order_spec : forall t pay order x ts ts' x' vs ok prior nr,
+  send_order t pay order x ts = (ts', x', vs, ok) ->
   (forall s, nr t s = nreps_st ts s) ->
   WInv pay t ts prior ->
   shape ts' = shape ts /\
@@ -206,14 +206,14 @@ Lemma send_order_spec : forall t pay order ts ts' vs ok prior nr,
   (forall v, In v vs -> v_tier v = t) /\
   (ok = true -> exists i sh, nth_error ts' i = Some sh /\ all_written sh = true).
 Proof.
-  induction order as [|i rest IH]; simpl; intros ts ts' vs ok prior nr H Hnr Hinv.
+  induction order as [|i rest IH]; simpl; intros x ts ts' x' vs ok prior nr H Hnr Hinv.
   - inversion H; subst. rewrite app_nil_r. repeat split; auto.
     + intros v [].
     + discriminate.
   - destruct (nth_error ts i) as [sh|] eqn:En.
     2:{ eapply IH; eauto. }
-    destruct (shard_bulk pay sh) as [[[sh' short] calls] ok0] eqn:Eb.
-    destruct (shard_bulk_spec _ _ _ _ _ _ Eb) as (BL & BW & BO & BC).
+    destruct (shard_bulk pay (dead x) sh) as [[[sh' short] calls] ok0] eqn:Eb.
+    destruct (shard_bulk_spec _ _ _ _ _ _ _ Eb) as (BL & BW & BO & BC).
     set (v := mkVisit t i short calls) in *.
     assert (Hshape : shape (update ts i sh') = shape ts) by (eapply shape_update; eauto).
     assert (Hv : VisitOk (nr t) pay prior v).
@@ -235,11 +235,11 @@ Proof.
     + inversion H; subst. split; [auto|]. split; [auto|]. split; [simpl; auto|]. split.
       * intros v0 [<-|[]]. reflexivity.
       * intros _. exists i, sh'. split; auto. eapply update_nth_same; eauto.
-    + destruct (send_order t pay rest (update ts i sh')) as [[ts'' vs0] ok'] eqn:Er.
+    + destruct (send_order t pay rest (after_visit x) (update ts i sh')) as [[[ts'' x''] vs0] ok'] eqn:Er.
       inversion H; subst.
       assert (Hnr' : forall s, nr t s = nreps_st (update ts i sh') s).
       { intros s. rewrite Hnr. rewrite !nreps_st_shape. rewrite Hshape. reflexivity. }
-      destruct (IH _ _ _ _ _ nr Er Hnr' Hinv') as (A & B & C & D & E).
+      destruct (IH _ _ _ _ _ _ _ nr Er Hnr' Hinv') as (A & B & C & D & E).
       split; [congruence|]. split; [rewrite <- app_assoc in B; exact B|].
       split; [simpl; split; auto|]. split.
       * intros v0 [<-|Hin]; auto.
@@ -248,8 +248,8 @@ Qed.
 
 (* ------------------------------------------------------------------ send_tier / store_docs / attempts *)
 
-Lemma send_tier_spec : forall t pay ords ts ts' ords' vs ok prior nr,
-  send_tier t pay ords ts = (ts', ords', vs, ok) ->
+Lemma send_tier_spec : forall t pay ords c ts ts' c' ords' vs ok prior nr,
+  send_tier t pay ords c ts = (ts', c', ords', vs, ok) ->
   (forall s, nr t s = nreps_st ts s) ->
   WInv pay t ts prior ->
   shape ts' = shape ts /\
@@ -257,13 +257,13 @@ Lemma send_tier_spec : forall t pay ords ts ts' ords' vs ok prior nr,
   SkipsOk nr pay prior vs /\
   (ok = true -> FullT ts').
 Proof.
-  intros t pay ords ts ts' ords' vs ok prior nr H Hnr Hinv. unfold send_tier in H.
+  intros t pay ords c ts ts' c' ords' vs ok prior nr H Hnr Hinv. unfold send_tier in H.
   destruct ts as [|sh0 ts0].
   - inversion H; subst. rewrite app_nil_r. repeat split; auto. intros _. left. reflexivity.
   - destruct (pop_order (length (sh0 :: ts0)) ords) as [o ords1].
-    destruct (send_order t pay o (sh0 :: ts0)) as [[ts1 vs1] ok1] eqn:E.
+    destruct (send_order t pay o c (sh0 :: ts0)) as [[[ts1 c1] vs1] ok1] eqn:E.
     inversion H; subst.
-    destruct (send_order_spec _ _ _ _ _ _ _ prior nr E Hnr Hinv) as (A & B & C & D & F).
+    destruct (send_order_spec _ _ _ _ _ _ _ _ _ prior nr E Hnr Hinv) as (A & B & C & D & F).
     repeat split; auto. intros Hok. right. auto.
 Qed.
 
@@ -286,19 +286,19 @@ Proof.
   assert (NH' : forall i, nr_sh shc shh Hot i = nreps_st (hot s) i).
   { intros. unfold nr_sh. rewrite nreps_st_shape. congruence. }
   destruct (cold_w s) eqn:CW.
-  - destruct (send_tier Hot pay (hot_ord s) (hot s)) as [[[h' ho'] vs1] ok1] eqn:E.
+  - destruct (send_tier Hot pay (hot_ord s) (ctx s) (hot s)) as [[[[h' x'] ho'] vs1] ok1] eqn:E.
     inversion H; subst.
-    destruct (send_tier_spec _ _ _ _ _ _ _ _ prior _ E NH' IH) as (A & B & C & D).
+    destruct (send_tier_spec _ _ _ _ _ _ _ _ _ _ prior _ E NH' IH) as (A & B & C & D).
     split; [split; simpl; auto|].
     split; [split; [|split]; simpl; auto; apply WInv_app; auto|].
     split; auto.
-  - destruct (send_tier Cold pay (cold_ord s) (cold s)) as [[[c' co'] vs1] ok1] eqn:E.
-    destruct (send_tier_spec _ _ _ _ _ _ _ _ prior _ E NC' IC) as (A & B & C & D).
+  - destruct (send_tier Cold pay (cold_ord s) (ctx s) (cold s)) as [[[[c' x'] co'] vs1] ok1] eqn:E.
+    destruct (send_tier_spec _ _ _ _ _ _ _ _ _ _ prior _ E NC' IC) as (A & B & C & D).
     destruct ok1.
-    + destruct (send_tier Hot pay (hot_ord s) (hot s)) as [[[h' ho'] vs2] ok2] eqn:E2.
+    + destruct (send_tier Hot pay (hot_ord s) x' (hot s)) as [[[[h' x''] ho'] vs2] ok2] eqn:E2.
       inversion H; subst.
       assert (IH' : WInv pay Hot (hot s) (prior ++ vs1)) by (apply WInv_app; auto).
-      destruct (send_tier_spec _ _ _ _ _ _ _ _ (prior ++ vs1) _ E2 NH' IH') as (A2 & B2 & C2 & D2).
+      destruct (send_tier_spec _ _ _ _ _ _ _ _ _ _ (prior ++ vs1) _ E2 NH' IH') as (A2 & B2 & C2 & D2).
       split; [split; simpl; congruence|].
       split; [split; [|split]; simpl; auto|].
       * rewrite app_assoc. apply WInv_app; auto.
@@ -368,8 +368,8 @@ Qed.
 
 Definition shc_of (cin : list shard_in) := shape (map mk_shard cin).
 
-Lemma init_ok : forall pay cin hin cord hord,
-  ShOk (shc_of cin) (shc_of hin) (init_st cin hin cord hord) /\ SInv pay (init_st cin hin cord hord) [].
+Lemma init_ok : forall pay cin hin cord hord cancel,
+  ShOk (shc_of cin) (shc_of hin) (init_st cin hin cord hord cancel) /\ SInv pay (init_st cin hin cord hord cancel) [].
 Proof.
   intros. split; [split; reflexivity|split; [|split]]; simpl; intros; try apply WInv_init; discriminate.
 Qed.
@@ -382,28 +382,28 @@ Qed.
 (* ------------------------------------------------------------------ safety theorems *)
 
 (* written bit => successful call to that very replica with this payload *)
-Lemma written_only_on_ok : forall tries pay cin hin cord hord s log ok,
-  store_documents tries pay cin hin cord hord = (s, log, ok) ->
+Lemma written_only_on_ok : forall tries pay cin hin cord hord cancel s log ok,
+  store_documents tries pay cin hin cord hord cancel = (s, log, ok) ->
   forall t sd rp sh r,
     nth_error (match t with Cold => cold s | Hot => hot s end) sd = Some sh ->
     nth_error (s_reps sh) r = Some rp -> r_written rp = true ->
     HasOk pay t sd r log.
 Proof.
-  intros tries pay cin hin cord hord s log ok H.
-  destruct (init_ok pay cin hin cord hord) as [HN HI].
+  intros tries pay cin hin cord hord cancel s log ok H.
+  destruct (init_ok pay cin hin cord hord cancel) as [HN HI].
   destruct (attempts_spec _ _ _ _ _ _ [] _ _ H HN HI) as (A & (BC & BH & BW) & C & D).
   simpl in *. intros t sd rp sh r Hs Hr Hw. destruct t; [eapply BC|eapply BH]; eauto.
 Qed.
 
 (* acknowledged => every configured tier holds a fully written shard (state form);
    contrapositive: no fully written shard in some configured tier => error *)
-Lemma fail_reported : forall tries pay cin hin cord hord s log ok,
+Lemma fail_reported : forall tries pay cin hin cord hord cancel s log ok,
   1 <= tries ->
-  store_documents tries pay cin hin cord hord = (s, log, ok) ->
+  store_documents tries pay cin hin cord hord cancel = (s, log, ok) ->
   (~ FullT (cold s) \/ ~ FullT (hot s)) -> ok = false.
 Proof.
-  intros tries pay cin hin cord hord s log ok Ht H Hno.
-  destruct (init_ok pay cin hin cord hord) as [HN HI].
+  intros tries pay cin hin cord hord cancel s log ok Ht H Hno.
+  destruct (init_ok pay cin hin cord hord cancel) as [HN HI].
   destruct (attempts_spec _ _ _ _ _ _ [] _ _ H HN HI) as (A & (BC & BH & BW) & C & D).
   destruct ok; auto. destruct (D Ht eq_refl) as [Hcw Hh].
   destruct Hno as [Hno|Hno]; exfalso; auto.
@@ -435,24 +435,24 @@ Proof.
       assert (i < length ts) by (apply nth_error_Some; congruence). lia.
 Qed.
 
-Lemma ack_sound : forall tries pay cin hin cord hord s log,
+Lemma ack_sound : forall tries pay cin hin cord hord cancel s log,
   1 <= tries ->
-  store_documents tries pay cin hin cord hord = (s, log, true) ->
+  store_documents tries pay cin hin cord hord cancel = (s, log, true) ->
   AckT pay Cold cin log /\ AckT pay Hot hin log.
 Proof.
-  intros tries pay cin hin cord hord s log Ht H.
-  destruct (init_ok pay cin hin cord hord) as [HN HI].
+  intros tries pay cin hin cord hord cancel s log Ht H.
+  destruct (init_ok pay cin hin cord hord cancel) as [HN HI].
   destruct (attempts_spec _ _ _ _ _ _ [] _ _ H HN HI) as ([SC SH] & (BC & BH & BW) & C & D).
   destruct (D Ht eq_refl) as [Hcw Hh]. simpl in *.
   split; eapply FullT_AckT; eauto.
 Qed.
 
 (* every visit of the model's log leaves out only replicas with an earlier successful call *)
-Lemma skips_sound : forall tries pay cin hin cord hord s log ok,
-  store_documents tries pay cin hin cord hord = (s, log, ok) ->
+Lemma skips_sound : forall tries pay cin hin cord hord cancel s log ok,
+  store_documents tries pay cin hin cord hord cancel = (s, log, ok) ->
   SkipsOk (nr_sh (shc_of cin) (shc_of hin)) pay [] log.
 Proof.
-  intros tries pay cin hin cord hord s log ok H.
-  destruct (init_ok pay cin hin cord hord) as [HN HI].
+  intros tries pay cin hin cord hord cancel s log ok H.
+  destruct (init_ok pay cin hin cord hord cancel) as [HN HI].
   destruct (attempts_spec _ _ _ _ _ _ [] _ _ H HN HI) as (A & B & C & D). exact C.
 Qed.
